@@ -50,6 +50,7 @@ type Result struct {
 	CrossDisagree  int            `json:"cross_disagree"`
 	Solver         string         `json:"solver"`
 	Workers        int            `json:"workers"`
+	InitSkipped    []string       `json:"init_skipped,omitempty"`
 }
 
 var smtLogPath string
@@ -211,6 +212,9 @@ func runHarness(cfg *Config) *Result {
 			res.MaxDepth = w.maxDepth
 		}
 		if w.interp != nil {
+			if len(res.InitSkipped) == 0 {
+				res.InitSkipped = w.interp.initSkipped
+			}
 			for f := range w.interp.funcsSeen {
 				if f.Pkg != nil && strings.HasPrefix(f.Pkg.Pkg.Path(), "ariga.io/atlas") && !strings.HasPrefix(f.Name(), "verif") && !strings.HasPrefix(f.Name(), "VerifHarness") {
 					pos := P.prog.Fset.Position(f.Pos())
